@@ -829,7 +829,10 @@ func genStore(r *vlib.Rand, nonfinite, seps bool) storeSpec {
 				}
 				l.F = hx(f)
 			case "string":
-				l.S = q(pick(r, pct, []string{"", "hello", "v1.2.3", "a b", "x\"y", "50%", "%v", "%d items", "100%"}) + strconv.FormatInt(distinct, 10))
+				l.S = q(pick(r, pct, []string{"", "hello", "v1.2.3", "a b", "x\"y", "50%", "%v", "%d items", "100%",
+					// control characters (ANSI colour codes in log lines, NUL, BEL), JSON's own
+					// specials, U+2028/2029, a rune outside the BMP, a non-printable one
+					"\x1b[31mred\x1b[0m", "nul\x00", "bel\x07", "tab\tbs\\", "cr\rx", "\u2028\u2029", "\U0001F600", "\u0080\u009f", "<&>", "del\x7f"}) + strconv.FormatInt(distinct, 10))
 				if pct && r.Chance(25) {
 					l.S = q(strconv.FormatInt(distinct, 10) + "%") // a trailing percent sign
 				}
